@@ -255,14 +255,19 @@ def check(spec):
                 fresh = eao_call(fpf.setup_split_optim_problem, fp, fg, interval_size=st_["interval"])
             elif op == "setup_fix":
                 # a fix dictionary owned by the caller and re-used between calls
-                if gi not in fixdict:
+                # (frame flag set: one dictionary for all grids - a date and a solution vector longer than any problem,
+                #  the rolling-horizon usage; otherwise one dictionary per grid)
+                fkey = "shared" if frame else gi
+                if fkey not in fixdict:
                     base = eao_call(fpf.setup_optim_problem, fp, fg)
                     if is_err(base):
                         precondition_errors += 1
                         continue
                     half = tl.point(spec["grids"][gi], 0) + (tl.point(spec["grids"][gi], 1) - tl.point(spec["grids"][gi], 0)) / 2
-                    fixdict[gi] = ({"I": half, "x": np.zeros(len(base.c))}, half, len(base.c))
-                d, half, nvar = fixdict[gi]
+                    nv = 4000 if frame else len(base.c)
+                    fixdict[fkey] = ({"I": half, "x": np.zeros(nv)}, half, nv)
+                    out.label("fixdict:" + ("shared" if frame else "per_grid"))
+                d, half, nvar = fixdict[fkey]
                 live = eao_call(live_pf.setup_optim_problem, p, live_grids[gi], fix_time_window=d)
                 fresh = eao_call(Portfolio(build_assets(spec)).setup_optim_problem, fp, fg,
                                  fix_time_window={"I": half, "x": np.zeros(nvar)})
